@@ -17,10 +17,10 @@ func init() {
 		"identical content/size/mode/owner through all hard links (they share one node by construction: C08 decides its locking)",
 	}
 	register(&Rule{ID: "C05.atomic", Floor: 25,
-		Text: "failure atomicity: in every exported operation of MemFS and OrefaFS except RemoveAll (documented to remove what it can), no instruction that changes the tree (entry-map update, node release, truncate, store to a node attribute) or the view's working directory (SetCurDir) can be followed by a return that reports an error; check-and-set helpers (setMode, setModTime) change the node only when they return true",
-		Also: []string{"C01", "C02", "C06", "C11"},
+		Text:     "failure atomicity: in every exported operation of MemFS and OrefaFS except RemoveAll (documented to remove what it can), no instruction that changes the tree (entry-map update, node release, truncate, store to a node attribute) or the view's working directory (SetCurDir) can be followed by a return that reports an error; check-and-set helpers (setMode, setModTime) change the node only when they return true",
+		Also:     []string{"C01", "C02", "C06", "C11"},
 		AlsoOnly: map[string][]string{"C11": {"SetCurDir()"}}, AlsoFloor: map[string]int{"C11": 1},
-		Run:  c05Atomic})
+		Run: c05Atomic})
 	register(&Rule{ID: "C05.nlink", Floor: 8, AlsoOnly: map[string][]string{"C11": {"releases-removed-node"}}, AlsoFloor: map[string]int{"C11": 2},
 		Text: "the link counter moves with the directory entries: Link increments the counter of the node it inserts, inside that node's critical section; Remove / RemoveAll release (decrement) every node whose entry they remove, on every path and for every kind of node; Rename releases the node it displaces at the destination",
 		Also: []string{"C01", "C02", "C08", "C11"},
